@@ -93,7 +93,7 @@ def maxSet (c : Cfg) (n nsw fuel : Nat) :
     if o = p then maxSet c n nsw fuel S p (if act.contains t then act else t :: act) r m
     else
       let S1 := closure (step c) enabled (obs n nsw) (pruneBy (key n nsw)) fuel p (act.erase t) S
-      let S2 := pruneBy (key n nsw) (S1.flatMap (visChain (step c) enabled (obs n nsw) t p o fuel))
+      let S2 := pruneBy (key n nsw) (S1.flatMap (visChain (step c) enabled (obs n nsw) t o fuel))
       maxSet c n nsw fuel S2 o [t] r (max m (max S1.length S2.length))
   | S, p, act, .exact t o :: r, m =>
     let S1 := closure (step c) enabled (obs n nsw) (pruneBy (key n nsw)) fuel p act S
@@ -107,7 +107,7 @@ def sizes (c : Cfg) (n nsw fuel : Nat) :
     if o = p then 0 :: sizes c n nsw fuel S p (if act.contains t then act else t :: act) r
     else
       let S1 := closure (step c) enabled (obs n nsw) (pruneBy (key n nsw)) fuel p (act.erase t) S
-      let S2 := pruneBy (key n nsw) (S1.flatMap (visChain (step c) enabled (obs n nsw) t p o fuel))
+      let S2 := pruneBy (key n nsw) (S1.flatMap (visChain (step c) enabled (obs n nsw) t o fuel))
       (S1.length * 100000 + S2.length) :: sizes c n nsw fuel S2 o [t] r
   | S, p, act, .exact t o :: r =>
     let S1 := closure (step c) enabled (obs n nsw) (pruneBy (key n nsw)) fuel p act S
